@@ -100,9 +100,14 @@ CLAIMS["C20"] = (
     "Trusted: rustc nightly MIR and float constant evaluation, factgen extraction, the table of p-valued fields/functions in vf/props/c20.py, lattice rules for f64::min/max (NaN-ignoring) and clamp.",
     "DESIGN.md section 3, C20")
 
+CLAIMS["C16"] = (
+    "MIR rules over nm_impl: write/read correspondence of counter fields by backward slice (which field of which parameter feeds which store / fetch_add / Cell::set, and under which index), per-path counting and must-pass-through (bucket increment -> dirty mark; copy -> remember), evaluated-constant agreement between the dirty-bit marker, the overflow mask and the overflow drain, normalised comparison operator of the bucket-selection predicate, guard liveness of the registry state lock across remove+archive and across thread-bags+archive visits, argument identity from every observe entry point to insert",
+    "Decides structural necessary conditions only (narrow): every bucket increment sets the dirty bit min(index,K) and the three uses of K agree; both insert siblings add batch / magnitude*batch / batch to count / sum / the first bucket with magnitude <= bound, with only the sanctioned early exits; push copies count, sum, the overflow range and each dirty bucket index-for-index and consumes the bitmap once; merges are additive; the pusher skips only on an unchanged count and remembers the count it compared; the published bag is the registered bag; thread teardown archives under the write guard that removed the thread's bags and reports read under one read guard; batch size and magnitude reach insert unchanged; report count/sum/overflow bucket come from the merged snapshot. The totals themselves over all observation histories, interleavings, torn concurrent reads and wrapping extremes are NOT decided.",
+    "Trusted: rustc nightly MIR and constant evaluation, factgen extraction, the accepted-idiom lists in vf/props/c16.py (first-match scans, min() marker, entry API).",
+    "DESIGN.md section 3, C16")
+
 NOT_APPLICABLE = {
     "C11": "Equality between parsed kernel text and the reported inventory, and an exact codec over the whole u32 range: values all the way down; no structural clause that is both exact and necessary was found (see DESIGN.md C11).",
-    "C16": "Counts, sums and bucket indices are arithmetic over runtime observations and thread histories; no structural necessary condition beyond what rustc already enforces (see DESIGN.md C16).",
 }
 
 PENDING = "static check not implemented yet in this round (planned, see DESIGN.md section 5); not claimed until it exists"
